@@ -6,6 +6,7 @@ import contextlib
 import hashlib
 import io
 import json
+import os
 import random
 import sys
 import threading
@@ -147,6 +148,29 @@ class GateState:
         self.__dict__.update(st)
 
 
+OTHERS_DONE = None      # threading.Event: set when every thread but the last has RETURNED from its skops call
+
+
+class AfterOthersReturned:
+    """an object whose state is taken only after the other threads' calls have returned: the schedule
+    enter A, enter B, exit A, B goes on -- under which state that A restores on exit while B still relies on it shows"""
+
+    def __init__(self, payload):
+        self.payload = payload
+
+    def __getstate__(self):
+        if GATE is not None and OTHERS_DONE is not None:
+            OTHERS_DONE.wait(timeout=3)
+        return {"payload": self.payload}
+
+
+def nested_list(depth, leaf):
+    x = leaf
+    for _ in range(depth):
+        x = [x]
+    return x
+
+
 def forced_scenarios(k):
     """scenario name -> function of the thread index; each returns a canonical, thread-specific result"""
     import numpy as np
@@ -173,6 +197,17 @@ def forced_scenarios(k):
         sc, m = norm_schema(schema, names)
         return [h(sc), m, contents]
 
+    def dumps_overlap_exit(depth):
+        # the last thread is still inside ITS ONE dumps call (held at AfterOthersReturned) when the others return; what it
+        # serialises afterwards is nested far below (40) or above (350 / 420 levels, three frames each) the interpreter's
+        # default recursion limit, so the outcome does not depend on how deep the calling stack already is (deeper nestings
+        # fail in the C json encoder whatever the limit is, which would hide a limit that is changed under a running call)
+        def fn(t):
+            if t < k - 1:
+                return [_dump_outcome(sio, {"gate": GateState(np.arange(3) + t), "n": t})]
+            return [_dump_outcome(sio, [GateState([t, depth]), AfterOthersReturned(depth), nested_list(depth, np.arange(2))])]
+        return fn
+
     pre = {}
 
     def loads_objects(t):
@@ -186,7 +221,49 @@ def forced_scenarios(k):
         for t in range(k):
             pre[t] = sio.dumps({"a": GateState(np.arange(4) + t), "b": [GateState({"k": t}), np.zeros(t + 1)]})
         GATE = g
-    return {"card-tables": (card_tables, None), "dumps-getstate": (dumps_objects, None), "loads-setstate": (loads_objects, prepare_loads)}
+    return {"dumps-overlap-exit-deep350": (dumps_overlap_exit(350), None), "dumps-overlap-exit-deep420": (dumps_overlap_exit(420), None),
+            "dumps-overlap-exit-shallow": (dumps_overlap_exit(40), None),
+            "card-tables": (card_tables, None), "dumps-getstate": (dumps_objects, None), "loads-setstate": (loads_objects, prepare_loads)}
+
+
+def interpreter_state():
+    """process-wide interpreter settings a library call has no business changing"""
+    import warnings
+    return {"recursionlimit": sys.getrecursionlimit(), "switchinterval": sys.getswitchinterval(), "cwd": os.getcwd(),
+            "sys.path": [x for x in sys.path if not str(x).startswith(str(Path(__file__).resolve().parent))],   # the harness adds its own directories "environ": hashlib.sha256(repr(sorted(os.environ.items())).encode()).hexdigest()[:12],
+            "warnings.filters": len(warnings.filters), "umask": _umask(), "stdout": id(sys.stdout), "excepthook": id(sys.excepthook)}
+
+
+def _umask():
+    m = os.umask(0)
+    os.umask(m)
+    return m
+
+
+def _dump_outcome(sio, obj):
+    try:
+        data = sio.dumps(obj)
+    except RecursionError:
+        return "exc:RecursionError"
+    except Exception as e:  # noqa
+        return "exc:" + type(e).__name__ + ":" + str(e)[:80]
+    with zipfile.ZipFile(io.BytesIO(data)) as z:
+        return "ok:members=%d" % (len(z.namelist()) - 1)
+
+
+def _in_thread(fn, *a):
+    """run fn in a thread of its own (the same stack depth as the interleaved runs) and hand back its result"""
+    box = []
+
+    def w():
+        try:
+            box.append(fn(*a))
+        except Exception as e:  # noqa
+            box.append(["exc:" + type(e).__name__ + ":" + str(e)[:120]])
+    th = threading.Thread(target=w)
+    th.start()
+    th.join()
+    return box[0] if box else None
 
 
 def forced_interleavings(parties=2, rounds=3):
@@ -195,30 +272,49 @@ def forced_interleavings(parties=2, rounds=3):
     sc = forced_scenarios(parties)
     for name, (fn, prep) in sc.items():
         GATE = None
+        st0 = interpreter_state()
         if prep:
             prep()
-        want = [fn(t) for t in range(parties)]                 # sequential, no gate
+        global OTHERS_DONE
+        OTHERS_DONE = None
+        want = [_in_thread(fn, t) for t in range(parties)]     # sequential, no gate, each in a thread of its own
         for rnd_i in range(rounds):
             GATE = Gate(parties)
+            OTHERS_DONE = threading.Event()
             got = [None] * parties
+            returned = []
 
             def worker(t):
                 try:
                     got[t] = fn(t)
                 except Exception as e:  # noqa
                     got[t] = ["exc:" + type(e).__name__ + ":" + str(e)[:120]]
+                finally:
+                    returned.append(t)
+                    if len([x for x in returned if x != parties - 1]) >= parties - 1:
+                        OTHERS_DONE.set()
             ths = [threading.Thread(target=worker, args=(t,)) for t in range(parties)]
             for th in ths:
                 th.start()
             for th in ths:
                 th.join()
             GATE = None
+            OTHERS_DONE = None
             if got != want:
                 bad = [t for t in range(parties) if got[t] != want[t]]
                 out.append({"scenario": name, "round": rnd_i, "thread": bad[0], "sequential": str(want[bad[0]])[:400], "interleaved": str(got[bad[0]])[:400]})
                 break
         else:
             out.append({"scenario": name, "ok": True})
+        st1 = interpreter_state()
+        if st1 != st0:
+            # overlapping calls left process-wide interpreter state changed (a later call, or the user's own code, now runs
+            # under other settings than a fresh process would): reported, then put back so that every scenario starts alike
+            ch = {k_: [st0[k_], st1[k_]] for k_ in st0 if st0[k_] != st1[k_]}
+            out.append({"scenario": name + "/process-state", "round": 0, "thread": 0, "sequential": str({k_: v[0] for k_, v in ch.items()}),
+                        "interleaved": str({k_: v[1] for k_, v in ch.items()})})
+            if "recursionlimit" in ch:
+                sys.setrecursionlimit(st0["recursionlimit"])
     return out
 
 
@@ -292,6 +388,7 @@ def main():
     import skops.io  # noqa
     import skops.card  # noqa
     s0 = module_state()
+    i0 = interpreter_state()
     r1 = [run_op(op) for op in ops]
     rnd = random.Random(req["seed"])
     for op in req["history"]:
@@ -320,7 +417,16 @@ def main():
     for t in ths:
         t.join()
     sys.setswitchinterval(old)
-    forced = forced_interleavings(2, 3) + [dict(x, parties=3) for x in forced_interleavings(3, 1)]
+    # process-wide interpreter state after the sequential history and the 8-thread phase: as in a fresh process
+    i1 = interpreter_state()
+    drift = []
+    if i1 != i0:
+        ch = {k_: [i0[k_], i1[k_]] for k_ in i0 if i0[k_] != i1[k_]}
+        drift.append({"scenario": "history+threads/process-state", "round": 0, "thread": 0, "sequential": str({k_: v[0] for k_, v in ch.items()}),
+                      "interleaved": str({k_: v[1] for k_, v in ch.items()})})
+        if "recursionlimit" in ch:
+            sys.setrecursionlimit(i0["recursionlimit"])     # every forced scenario starts from the fresh-process settings
+    forced = drift + forced_interleavings(2, 3) + [dict(x, parties=3) for x in forced_interleavings(3, 1)]
     rebound = rebinding_probe()
     s1 = module_state()
     # separate Card instances never share sections or metrics
